@@ -67,7 +67,8 @@ def main():
             t0 = time.time()
             _WATCHDOG["fired"] = False
             signal.signal(signal.SIGALRM, _on_alarm)
-            signal.alarm(int(getattr(mod, "CASE_TIMEOUT", 600)))
+            # generous wall-clock watchdog (a verdict is never derived from it); ambient workloads replay whole example scripts
+            signal.alarm(1800 if isinstance(case, dict) and "ambient" in case else int(getattr(mod, "CASE_TIMEOUT", 900)))
             try:
                 res = mod.run_case(case)
                 signal.alarm(0)
